@@ -1655,3 +1655,74 @@ func EmitCondRule(w *World, b *Backend, r *Result, rule string, only ...string) 
 		r.Bad(rule, "emitcond:"+b.Role+":none", "-", "no emission found in this back end")
 	}
 }
+
+// ValueAtomRule: what a value-producing Converter method hands back is ONE unit of shell
+// text: one expansion ${…}, one literal, or the one value it was handed (possibly wrapped).
+// Two values placed side by side ("%s%s" of both operands) are not a unit: every consumer
+// decides how to quote an argument from its first character, so pre-${x} or ${a}${b} is
+// emitted bare although it expands to text with blanks and wildcards.
+func ValueAtomRule(w *World, b *Backend, r *Result, rule string) {
+	var names []string
+	for n := range b.X.Methods {
+		names = append(names, n)
+	}
+	sort.Strings(names)
+	n := 0
+	for _, name := range names {
+		mf := b.X.Methods[name]
+		if name == "Dump" || name == "Extension" {
+			continue
+		}
+		var ts []Tmpl
+		for _, rv := range mf.Returns {
+			switch v := rv.(type) {
+			case StrV:
+				ts = append(ts, v.T)
+			case ListV:
+				for _, el := range v.uniform() {
+					ts = append(ts, asTmpl(el))
+				}
+			}
+		}
+		if len(ts) == 0 {
+			continue
+		}
+		n++
+		key := fmt.Sprintf("atom:%s:%s", b.Role, name)
+		bad := ""
+		var count func(t Tmpl) int
+		count = func(t Tmpl) int {
+			c := 0
+			for _, p := range t {
+				switch p := p.(type) {
+				case Hole:
+					if _, isParam := paramClass[strings.SplitN(p.Origin, "~", 2)[0]]; isParam {
+						c++
+					}
+				case Alt:
+					m := 0
+					for _, o := range p.Opts {
+						if k := count(o); k > m {
+							m = k
+						}
+					}
+					c += m
+				}
+			}
+			return c
+		}
+		for _, t := range ts {
+			if count(t) >= 2 {
+				bad = t.String()
+			}
+		}
+		if bad != "" {
+			r.Bad(rule, key, w.Pos(mf.Fn.Pos()), fmt.Sprintf("%s hands back several values side by side (%s) instead of one expansion: a consumer that quotes by the first character emits the rest bare, and it is word-split and globbed", name, bad))
+		} else {
+			r.Ok(rule, key, w.Pos(mf.Fn.Pos()), "hands back one unit of text (one expansion, one literal, or the value it was handed)")
+		}
+	}
+	if n == 0 {
+		r.Bad(rule, "atom:"+b.Role+":none", "-", "no value-producing method found")
+	}
+}
